@@ -335,6 +335,66 @@ def text_job(n, shard):
     return res
 
 
+# ---- text front end with -c: documented operands must stay accepted when the compressor looks at them -----------
+
+COMP_CONFIGS = {
+    # mnemonic: list of register settings that make the instruction a compression candidate
+    'addi': [{'rd': 2, 'rs1': 2}, {'rd': 8, 'rs1': 2}, {'rd': 15, 'rs1': 2}, {'rd': 5, 'rs1': 5}, {'rd': 9, 'rs1': 0}, {'rd': 5, 'rs1': 6}, {'rd': 0, 'rs1': 0}],
+    'andi': [{'rd': 8, 'rs1': 8}, {'rd': 15, 'rs1': 15}],
+    'lw': [{'rd': 8, 'rs1': 9}, {'rd': 15, 'rs1': 15}, {'rd': 5, 'rs1': 2}, {'rd': 31, 'rs1': 2}],
+    'sw': [{'rs1': 8, 'rs2': 9}, {'rs1': 15, 'rs2': 15}, {'rs1': 2, 'rs2': 5}, {'rs1': 2, 'rs2': 0}],
+    'lui': [{'rd': 5}, {'rd': 1}, {'rd': 31}],
+    'jal': [{'rd': 0}, {'rd': 1}],
+    'beq': [{'rs1': 8, 'rs2': 0}, {'rs1': 15, 'rs2': 0}],
+    'bne': [{'rs1': 8, 'rs2': 0}, {'rs1': 15, 'rs2': 0}],
+    'jalr': [{'rd': 0, 'rs1': 5}, {'rd': 1, 'rs1': 5}],
+    'slli': [{'rd': 5, 'rs1': 5}], 'srli': [{'rd': 8, 'rs1': 8}], 'srai': [{'rd': 15, 'rs1': 15}],
+}
+
+
+def compress_text_job(mn):
+    asm = env.load_asm()
+    res = env.Result()
+    field = 'shamt' if mn in ('slli', 'srli', 'srai') else 'imm'
+    if mn == 'lui':
+        window = list(range(-80, 81)) + list(range(0xfffa0, 0x100010)) + [0x7ffff, 0x80000, -0x80000, -0x80001, 0x100000]
+    elif mn == 'jal':
+        window = list(range(-2100, 2101)) + [-(1 << 20), (1 << 20) - 2, 1 << 20]
+    elif mn in ('beq', 'bne'):
+        window = list(range(-300, 301)) + [-4096, 4094, 4096, -4098]
+    elif field == 'shamt':
+        window = list(range(-2, 35))
+    else:
+        window = list(range(-1100, 1101)) + [-2048, 2047, 2048, -2049]
+    names = apimap.api_fields(mn)
+    for regs in COMP_CONFIGS[mn]:
+        for v in window:
+            f = dict(regs)
+            f[field] = v
+            cls = classify32(mn, field, v)
+            parts = [('x%d' % f[n]) if n in ('rd', 'rs1', 'rs2') else str(f[n]) for n in names]
+            line = mn + ' ' + ', '.join(parts)
+            res.evaluations += 1
+            try:
+                out = bytes(asm.assemble(line + '\n', compress=True))
+                ok = True
+            except Exception as e:
+                ok, err = False, e
+            if cls == ACCEPT and not ok:
+                res.fail('text:refuses_with_c:%s' % mn, 'line %r is within the documented operand ranges but is refused with -c: %s' % (line, str(err)[-120:]),
+                         {'kind': 'text', 'source': line + '\n', 'compress': True, 'expect': cls, 'bytes': None})
+            elif cls == REFUSE and ok:
+                res.fail('text:accepts:%s' % mn, 'line %r (compress=True) has an unrepresentable operand but assembles to %s' % (line, out.hex()),
+                         {'kind': 'text', 'source': line + '\n', 'compress': True, 'expect': cls, 'bytes': None})
+            elif ok and len(out) == 4 and cls == ACCEPT and out != struct.pack('<I', expected32(mn, f)):
+                res.fail('text:wrong:%s' % mn, 'line %r (compress=True, not compressed) assembles to %s, specification gives %08x' % (line, out.hex(), expected32(mn, f)),
+                         {'kind': 'text', 'source': line + '\n', 'compress': True, 'expect': cls, 'bytes': struct.pack('<I', expected32(mn, f)).hex()})
+            if ok and len(out) == 2:
+                res.nontrivial_count += 1
+    res.sample({'compress_text_probe': mn, 'register settings': COMP_CONFIGS[mn], 'values': len(window)})
+    return res
+
+
 def run(tier):
     chk = env.Check(PROP, tier)
     try:
@@ -344,6 +404,7 @@ def run(tier):
     for mn in sorted(rvref.BASE):
         c01.contrib_tables(mn) if rvref.fmt_of(mn) not in ('U', 'J') else None
     jobs = [(job32, (mn,)) for mn in sorted(rvref.BASE)] + [(job16, (mn,)) for mn in rvref.C_MNEMONICS]
+    jobs += [(compress_text_job, (mn,)) for mn in sorted(COMP_CONFIGS)]
     chk.merge(env.run_shards(_dispatch, jobs))
     api = chk.res.evaluations
     n_text = {'quick': 20000, 'thorough': 500000}[tier]
@@ -354,7 +415,8 @@ def run(tier):
     chk.rule = ('API: every operand of all 66 + 27 mnemonics probed over [lo-2*span, hi+2*span] (all residues; for U/J a dense '
                 'window round both ends and zero plus a stride) and +-2^k+-1 up to 2^33, registers -2..40 and bad spellings, three '
                 'legal settings of the other operands (c.*: full register x immediate product) - complete over that window; text: '
-                '%d one-line programs x both compress settings. non-trivial = probe within two scale units of an interval end, or with '
+                '%d one-line programs x both compress settings, and every compression-candidate register setting of addi/andi/lw/sw/lui/jal/'
+                'beq/bne/jalr/shifts x a dense immediate window with -c (documented operands must stay accepted). non-trivial = probe within two scale units of an interval end, or with '
                 'an edge/illegal register; API probes distinct by construction, text probes by (line, mode)' % n_text)
     chk.assumptions = ['three-valued table: CSR >= 0x800 / negative CSR spellings, odd jalr offsets and the unsigned c.lui spelling are EITHER']
     return chk.finish()
